@@ -1,46 +1,81 @@
 (* C03 — the statements used in Props.v, assembled from ProofsPeriod / ProofsToken / ProofsBucket. *)
 From Coq Require Import List ZArith String Bool Lia.
 From GZ Require Import Lib.RedisStore Lib.RedisStoreFacts C03.Model C03.GenProofs
-                       C03.ProofsBucket C03.ProofsPeriod C03.ProofsToken.
+                       C03.ProofsBucket C03.ProofsPeriod C03.ProofsPeriodSpec C03.ProofsToken.
 Import ListNotations.
 Open Scope Z_scope.
 
 (* ------------------------------------------------------------------ PeriodLimit *)
-Lemma period_exact_quota_all q p key s ops :
-  1 <= p -> pdown s = false -> lookup (pstore s) key = None ->
-  forallb (calm key) ops = true -> pelapsed ops < p * 1000 ->
-  let s1 := fst (pstep q p s (PTake key)) in
-  snd (pstep q p s (PTake key)) = Some (code_of 1 q, false) /\
-  answers key ops (prun q p s1 ops) = expect q key 1 false ops /\
-  (forall d, p * 1000 <= pelapsed ops + d ->
-     lookup (pstore (fst (pstep q p (pfinal q p s1 ops) (PAdvance d)))) key = None).
+Lemma period_exact_quota_all c key s ops :
+  (forall t, 1 <= window c t) -> pdown s = false -> lookup (pstore s) key = None ->
+  forallb (calm key) ops = true ->
+  let w := window c (rnow (pstore s)) in
+  let incl := expiry_inclusive (pstore s) in
+  pelapsed ops < w * 1000 ->
+  let s1 := fst (pstep c s (PTake key true)) in
+  snd (pstep c s (PTake key true)) = PAns (code_of 1 (pquota c)) false /\
+  answers key ops (prun c s1 ops) = expect c key 1 false ops /\
+  (forall d, before incl (pelapsed ops + d) (w * 1000) = false ->
+     lookup (pstore (fst (pstep c (pfinal c s1 ops) (PAdvance d)))) key = None).
 Proof.
-  intros Hp Hd HL HQ HE. cbn [pstep].
-  destruct (take_fresh q p Hp key s Hd HL) as [st2 [T1 [T2 T3]]]. rewrite T1. cbn [fst snd].
-  split; [reflexivity|].
-  destruct (period_history q p key ops (mkP st2 false) 1 (rnow (pstore s) + p * 1000)) as [A [B C]];
+  intros Hw Hd HL HQ w incl HE. cbn [pstep].
+  destruct (take_fresh c Hw key s Hd HL) as [st2 [T1 [T2 [T3 T4]]]]. rewrite T1. cbn [fst snd].
+  split; [reflexivity|]. fold w in T2.
+  destruct (period_history c key ops (mkP st2 false) 1 (rnow (pstore s) + w * 1000)) as [A [B [C D]]];
     auto; try lia.
   - cbn. lia.
   - split; [exact A|]. intros d Hdd. cbn [fst pstore].
-    unfold lookup, advance. cbn [rdata rnow]. rewrite B. unfold live. cbn [eexp].
-    assert (X : (rnow (pstore (pfinal q p (mkP st2 false) ops)) + d <? rnow (pstore s) + p * 1000) = false).
-    { apply Z.ltb_ge. rewrite C. cbn. lia. }
-    now rewrite X.
+    unfold lookup, advance. cbn [rdata rnow expiry_inclusive]. rewrite B. unfold live. cbn [eexp].
+    rewrite C, D. cbn [pstore]. rewrite T3, T4.
+    replace (rnow (pstore s) + pelapsed ops + d) with (rnow (pstore s) + (pelapsed ops + d)) by lia.
+    rewrite before_shift. fold incl. now rewrite Hdd.
 Qed.
 
-Lemma period_error_not_grant_all q p s key :
-  (pdown s = true -> pstep q p s (PTake key) = (s, Some (Unknown, true))) /\
-  (forall c e, snd (pstep q p s (PTake key)) = Some (c, e) ->
-     (e = true -> c = Unknown) /\ (c <> Unknown -> e = false /\ pdown s = false)).
+(* the same theorem read for an aligned limiter: the period that a first request at time t
+   starts ends at the next multiple of the period on the local clock *)
+Lemma aligned_period_quota_all c key s ops :
+  1 <= pperiod c -> palign c = true -> pdown s = false -> lookup (pstore s) key = None ->
+  forallb (calm key) ops = true ->
+  let unix := rnow (pstore s) / 1000 in
+  let w := window c (rnow (pstore s)) in
+  let incl := expiry_inclusive (pstore s) in
+  1 <= w <= pperiod c /\ (unix + poffset c + w) mod pperiod c = 0 /\
+  (pelapsed ops < w * 1000 ->
+   let s1 := fst (pstep c s (PTake key true)) in
+   snd (pstep c s (PTake key true)) = PAns (code_of 1 (pquota c)) false /\
+   answers key ops (prun c s1 ops) = expect c key 1 false ops /\
+   (forall d, before incl (pelapsed ops + d) (w * 1000) = false ->
+      lookup (pstore (fst (pstep c (pfinal c s1 ops) (PAdvance d)))) key = None)).
+Proof.
+  intros Hp Ha Hd HL HQ unix w incl.
+  destruct (window_spec c (rnow (pstore s)) Hp) as [W1 [W2 _]].
+  split; [exact W1|]. split; [exact (W2 Ha)|]. intro HE.
+  apply period_exact_quota_all; auto.
+  intro t. destruct (window_spec c t Hp) as [X _]. lia.
+Qed.
+
+Lemma period_error_not_grant_all c s key brk :
+  ((pdown s = true \/ brk = false) -> pstep c s (PTake key brk) = (s, PAns Unknown true)) /\
+  (forall cd e, snd (pstep c s (PTake key brk)) = PAns cd e ->
+     (e = true -> cd = Unknown) /\ (cd <> Unknown -> e = false /\ pdown s = false /\ brk = true)).
 Proof.
   split.
-  - intro Hd. cbn [pstep]. unfold take. now rewrite Hd.
-  - intros c e. cbn [pstep]. unfold take. destruct (pdown s) eqn:Hd.
+  - intro H. cbn [pstep]. unfold take.
+    assert (X : (pdown s || negb brk)%bool = true) by (destruct H as [-> | ->]; [reflexivity|apply orb_true_r]).
+    now rewrite X.
+  - intros cd e. cbn [pstep]. unfold take. destruct (pdown s || negb brk)%bool eqn:Hd.
     + cbn. intro H. inversion H; subst. split; [auto|congruence].
-    + destruct (eval _ _ _ _) as [r st']. cbn [snd]. intro H. inversion H as [H1].
-      pose proof (period_reply_sound r) as [S1 S2]. rewrite H1 in S1, S2. cbn [fst snd] in S1, S2.
+    + apply orb_false_iff in Hd. destruct Hd as [Hd Hb]. apply negb_false_iff in Hb.
+      destruct (eval _ _ _ _) as [r st']. destruct (period_reply r) as [cd' e'] eqn:PR. cbn [snd]. intro H. inversion H; subst.
+      pose proof (period_reply_sound r) as [S1 S2]. rewrite PR in S1, S2. cbn [fst snd] in S1, S2.
       split; [exact S1|]. intro Hc. destruct (S2 Hc) as [S3 _]. auto.
 Qed.
+
+(* the specification used by Check.prop_ok is the model, on all histories *)
+Lemma period_spec_refines_all c incl base ops :
+  (forall t, 1 <= window c t) ->
+  prun c (pinit incl base) ops = sp_prun c (sp_pinit incl base) ops.
+Proof. intro Hw. apply prun_refines; auto. apply prel_init. Qed.
 
 (* ------------------------------------------------------------------ TokenLimiter *)
 Lemma twf_app : forall pre clock mid,
@@ -61,18 +96,18 @@ Qed.
 Lemma sp_clock_final c : forall ops a, sp_clock (sp_tfinal c a ops) = sp_clock a + telapsed ops.
 Proof.
   induction ops as [|o ops IH]; intro a; cbn [sp_tfinal telapsed]; [lia|].
-  rewrite IH. destruct o as [i now n r|ms| | |i]; cbn [sp_tstep telapsed]; try (cbn; lia).
+  rewrite IH. destruct o as [i now n r brk|ms| | |i]; cbn [sp_tstep telapsed]; try (cbn; lia).
   - destruct (nth_error (sp_insts a) i) as [t|]; [|cbn; lia].
-    destruct (alive t); cbn [negb]; [|cbn; lia]. destruct (sp_tdown a); [cbn; lia|].
+    destruct (alive t); cbn [negb]; [|cbn; lia]. destruct (sp_tdown a || negb brk)%bool; [cbn; lia|].
     destruct (bucket_take _ _ _ _ _). cbn. lia.
   - destruct (nth_error (sp_insts a) i) as [t|]; [|cbn; lia].
     destruct (monitor t && negb (sp_tdown a))%bool; cbn; lia.
 Qed.
 
-Lemma token_joint_bound_all c base n pre mid :
+Lemma token_joint_bound_all c incl base n pre mid :
   1 <= rate c -> 0 <= burst c -> ktokens c <> kts c -> 0 <= base ->
   twf base (pre ++ mid) = true ->
-  let s0 := tinit base n in
+  let s0 := tinit incl base n in
   let a0 := mkSp (mkB (burst c) 0) base false (repeat (mkT true false) n) in
   let t1 := base + telapsed pre in
   trun c s0 (pre ++ mid) = sp_trun c a0 (pre ++ mid) /\
@@ -80,7 +115,7 @@ Lemma token_joint_bound_all c base n pre mid :
     <= burst c + rate c * (unix_s (t1 + telapsed mid) - unix_s t1).
 Proof.
   intros Hr Hb Hk Hbase Hwf s0 a0 t1.
-  pose proof (rel_init c Hr Hb base n Hbase) as R0. fold s0 a0 in R0.
+  pose proof (rel_init c Hr Hb incl base n Hbase) as R0. fold s0 a0 in R0.
   split.
   - exact (proj1 (trun_refines c Hr Hb Hk (pre ++ mid) s0 a0 R0 Hwf)).
   - rewrite twf_app in Hwf. apply andb_true_iff in Hwf. destruct Hwf as [W1 W2].
